@@ -11,7 +11,9 @@ from common import (CACHE_ROOT, REPO, VERIF, copy_repo, log, new_scratch, offlin
                     sha)
 
 KANI_DIR = os.path.join(VERIF, "kani")
-KANI_FLAGS = ["-Z", "function-contracts", "-Z", "stubbing", "-Z", "unstable-options"]
+# --no-assertion-reach-checks: the per-assertion reachability pass dominated run time (measured 670 s -> 116 s on a
+# C12 harness, same checks); vacuity is guarded by the kani::cover! statements every harness carries instead.
+KANI_FLAGS = ["-Z", "function-contracts", "-Z", "stubbing", "-Z", "unstable-options", "--no-assertion-reach-checks"]
 RSS_LIMIT_KB = int(os.environ.get("VERIF_RSS_LIMIT_GB", "24")) * 1024 * 1024
 
 
